@@ -445,7 +445,8 @@ impl Check for C03Pipeline {
                 }
             }
             let dir = crate::fifo::tmp_dir();
-            let path = dir.join(format!("c03-{:016x}.json", hash_str(&format!("{:?}{}", a1, input.len()))));
+            static SEQ: std::sync::atomic::AtomicU64 = std::sync::atomic::AtomicU64::new(0);
+            let path = dir.join(format!("c03-{}-{:016x}.json", SEQ.fetch_add(1, std::sync::atomic::Ordering::Relaxed), hash_str(&format!("{:?}{}", a1, input.len()))));
             if std::fs::write(&path, &input).is_ok() {
                 // (a bare --merge takes the next word for its optional key expression: the file
                 // goes in front of it)
